@@ -14,7 +14,7 @@ from instr import core, diskcache
 ID = 'C02'
 COQ_PROP = 'C02'
 LEVEL = 'proof'
-TRANSLATE = ['disk', 'sql']     # sql: every lookup / removal statement filters on key = ? AND raw = ? (bystander monitor)
+TRANSLATE = ['disk', 'sql', 'fanout']     # sql: every lookup / removal statement filters on key = ? AND raw = ? (bystander monitor)
 TRUSTED = [
     'coq/base/Val.v: SQLite storage-class order and exact int/real comparison, CPython binding; compared with the UNIQUE(key, raw) index of a real database on every enumerated pair',
     'codec hypothesis: pickletools.optimize(pickle.dumps(k, protocol)) is injective on keys (premise pkk_inj) and pickle.load inverts it; multi-element hash-ordered containers are outside it (C13 finding)',
